@@ -359,4 +359,19 @@ def rule_conserve(rep, R):
         ok = dst_ok and src_ok and park_ok
         detail = "deliver %s <- %s ; park [%s, %s) -> %s" % (show(d)[:50], show(s)[:50], lo, hi, show(w["dest"]))
     rep.ob(R, "FftFixedOut/deliver-park", ok, detail + " (must deliver output_buffers[..chunk_size_out] and park [chunk_size_out, processed) -> 0)", loc(fn))
+    # the chunk is delivered whenever a whole chunk is buffered: the guard of the delivering branch is exactly `processed >= chunk_size_out`
+    # (the call reports chunk_size_out frames written on every path, and the request is sized so that processed can equal chunk_size_out)
+    ok = False
+    detail = "no guarded delivering loop"
+    conds = [l_.get("cond") for l_ in m["loops"] if l_["copies"] and l_.get("cond") is not None]
+    if conds:
+        c_ = conds[0]
+        detail = "delivering branch taken when %s" % show(c_)[:90]
+        if isinstance(c_, dict) and c_.get("k") == "bin" and c_["op"] in (">=", "<="):
+            big, small = (c_["l"], c_["r"]) if c_["op"] == ">=" else (c_["r"], c_["l"])
+            try:
+                ok = sp.simplify(alg.conv(big).subs(idiv_f(FN, FI), U) - (S + FO * U)) == 0 and sp.simplify(alg.conv(small) - CO) == 0
+            except Exception:      # noqa: BLE001
+                ok = False
+    rep.ob(R, "FftFixedOut/deliver-condition", ok, detail + " (must be: saved + fft_size_out·blocks >= chunk_size_out)", loc(fn))
     return True
